@@ -31,7 +31,7 @@ class Obligation(object):
 
     def __init__(self, name, fn, labels, desc="", bounds=None, stubs=(), assumptions=(), outside=(),
                  encoded=(), budget_s=60, split=96, replay=None, check_sample=None, setup=None,
-                 require_complete=False, solver_timeout_ms=20000):
+                 require_complete=False, solver_timeout_ms=20000, classify=None):
         self.name = name
         self.fn = fn
         self.labels = list(labels)
@@ -48,9 +48,11 @@ class Obligation(object):
         self.setup = setup
         self.require_complete = require_complete
         self.solver_timeout_ms = solver_timeout_ms
+        self.classify = classify      # case -> signature of a recorded finding (or None); see known_findings.txt
 
 
 _OBLS = {}
+_KNOWN_SIGS = set()
 
 
 def _merge(a, b):
@@ -68,6 +70,8 @@ def _work(args):
     name, prefixes, deadline, max_paths = args
     obl = _OBLS[name]
     en = core.Engine(deadline=deadline, solver_timeout_ms=obl.solver_timeout_ms)
+    en.classify = obl.classify
+    en.known = _KNOWN_SIGS
     out = {"name": name}
     try:
         en.explore(obl.fn, prefixes=prefixes, max_paths=max_paths)
@@ -83,6 +87,8 @@ def _work(args):
     out["samples"] = en.samples
     out["leftover"] = en.leftover
     out["inconclusive"] = en.inconclusive
+    out["known_hits"] = en.known_hits
+    out["known_count"] = en.known_count
     return out
 
 
@@ -95,6 +101,8 @@ def run_obligation(obl, pool):
            "assumptions": obl.assumptions, "outside": obl.outside, "errors": []}
     stats = {}
     violations = []
+    known_hits = []
+    known_count = {}
     samples = []
     queue = [([[]], 8)]          # (prefixes, max_paths)
     inflight = []
@@ -112,6 +120,10 @@ def run_obligation(obl, pool):
             out = r.get()
             _merge(stats, out["stats"])
             violations.extend(out["violations"])
+            for kh in out.get("known_hits", []):
+                if sum(1 for x in known_hits if x["known_signature"] == kh["known_signature"]) < 2:
+                    known_hits.append(kh)
+            _merge(known_count, out.get("known_count", {}))
             for smp in out["samples"]:
                 if len(samples) < 64:
                     samples.append(smp)
@@ -151,7 +163,8 @@ def run_obligation(obl, pool):
                 pass
         stats["complete"] = False
     res["stats"] = stats
-    res["violations"] = violations
+    res["violations"] = violations + known_hits
+    res["known_count"] = known_count
     res["samples"] = samples
     res["wall_s"] = round(time.time() - t0, 2)
     res["exhaustive"] = bool(stats.get("complete", False)) and not res["errors"]
@@ -243,6 +256,7 @@ def run_check(prop, mod, tier, seed):
     obls = mod.obligations(tier)
     for o in obls:
         _OBLS[o.name] = o
+    _KNOWN_SIGS.update(k.get("signature") for k in load_known(prop))
     results = []
     ctx = multiprocessing.get_context("fork")
     pool = ctx.Pool(NPROC)
@@ -302,7 +316,8 @@ def run_check(prop, mod, tier, seed):
             sig = rr.get("signature") or v["label"]
             hit = [k for k in known if k.get("signature") == sig]
             if hit:
-                known_hits.append((sig, hit[0], path))
+                if not any(s_ == sig for s_, _, _ in known_hits):
+                    known_hits.append((sig, hit[0], path))
             else:
                 reported.append((v["label"], path, rr.get("detail")))
 
@@ -358,7 +373,7 @@ def run_check(prop, mod, tier, seed):
                  "solver_s": r["stats"].get("solver_s", 0), "assertions_discharged": r["stats"].get("asserts", {}),
                  "vacuity_witness": "every listed label reached on a feasible path" if not r["vacuous_labels"] else "NOT reached: %s" % r["vacuous_labels"],
                  "exhaustive_within_bound": r["exhaustive"], "wall_s": r["wall_s"],
-                 "violations_found": len(r["violations"])}
+                 "violations_found": len(r["violations"]), "paths_matching_known_findings": r.get("known_count", {})}
                 for r in results],
             "known_findings_matched": [k[0] for k in known_hits],
             "errors": errors,
